@@ -8,12 +8,12 @@ import (
 	"crypto/sha1"
 	"crypto/sha256"
 	"crypto/x509"
+	"encoding/hex"
 	"encoding/pem"
 	"os"
 	"testing"
 
 	"github.com/beevik/etree"
-	_ "golang.org/x/crypto/ripemd160"
 
 	"verif/harness/internal/fix"
 )
@@ -21,6 +21,23 @@ import (
 // The reference is validated against the standard library's own OAEP / PKCS#1
 // (which implement the same RFC 8017 primitives) and against the two captured
 // third-party samples in the repository's testdata.
+
+// Known answers from the RIPEMD-160 paper, for the private copy.
+func TestRMD160KnownAnswers(t *testing.T) {
+	for in, want := range map[string]string{
+		"":                           "9c1185a5c5e9fc54612808977ee8f548b2258d31",
+		"abc":                        "8eb208f7e05d987a9b044a8e98c6b087f15a0bfc",
+		"message digest":             "5d0689ef49d2fae572b881b123a85ffa21595f36",
+		"abcdefghijklmnopqrstuvwxyz": "f71c27109c692c1b56bbdceb5b9d2865b3708dbc",
+	} {
+		h, _ := HashByURI(DigestRIPEMD160)
+		d := h()
+		d.Write([]byte(in))
+		if got := hex.EncodeToString(d.Sum(nil)); got != want {
+			t.Fatalf("rmd160(%q) = %s, want %s", in, got, want)
+		}
+	}
+}
 
 func TestBlockRoundTrip(t *testing.T) {
 	for alg, s := range blockSpecs {
@@ -111,6 +128,8 @@ func TestElementRoundTrip(t *testing.T) {
 			{KeyTransport: RSAOAEPMGF1P, Digest: LibDigestRIPEMD160, OAEPParams: []byte{1, 2}},
 			{KeyTransport: RSAOAEP11, Digest: DigestSHA512, MGF: MGF1SHA256},
 			{KeyTransport: RSAOAEP11, Digest: DigestSHA256},
+			{KeyTransport: RSAOAEPMGF1P, XencPrefix: "-", DsPrefix: "dsig", Extras: true, EmbedCert: true},
+			{KeyTransport: RSA15, XencPrefix: "e", Extras: true, KeyID: "_k1", KeyIDRef: true, ID: "_d1"},
 		} {
 			for _, sib := range []bool{false, true} {
 				o := tr
